@@ -354,6 +354,9 @@ pub(crate) fn extract_code_block_start(line: &str) -> Option<(&str, &str, &str)>
         return None;
     }
     let (backticks, rest) = line.split_at(fence_length);
+    // blanks around the info string belong neither to the language nor to the
+    // configuration (an invisible trailing blank must not hide the test)
+    let rest = rest.trim();
     match rest.find('{') {
         Some(index) if index > 0 => Some((backticks, rest[..index].trim_end(), &rest[index..])),
         _ => Some((backticks, rest, "")),
